@@ -172,12 +172,25 @@ def step (d : DSt) (ts : List String) : DSt × String :=
     match report d.obj d.st with
     | none => (d, "rep none")
     | some r =>
-      (d, s!"rep approx={bit r.approximate} diff={floatBits r.difference} stored={floatBits r.storedCost} " ++
+      (d, s!"rep approx={bit r.approximate} diff={if r.approximate then floatBits r.difference else "-"} stored={floatBits r.storedCost} " ++
           s!"opt={bit r.optimized} plen={r.path.length} ph={r.path.foldl ptHash 0xCBF29CE484222325} " ++
           s!"true={floatBits (pathTrueCost d.obj r.path)}")
   | ["tree"] =>
     (d, joinSp (s!"n={d.st.motions.size}" :: ((List.range d.st.motions.size).zip d.st.motions.toList).map
       (fun p => showMotion p.1 p.2)))
+  | "sorttest" :: rest =>
+    -- self-test of the std::sort port: sort the indices 0..k-1 by integer key with `<`
+    match takeCounted rest with
+    | some (xs, []) =>
+      match parseInts? xs with
+      | some ks =>
+        let ka := ks.toArray
+        let (r, h) := stdSort (fun i j => match ka[i]?, ka[j]? with
+          | some a, some b => decide (a < b)
+          | _, _ => false) (Array.range ks.length)
+        (d, joinSp ((if h then "heap" else "sorted") :: r.toList.map toString))
+      | none => (d, "bad-op")
+    | _ => (d, "bad-op")
   | _ => (d, "bad-op")
 
 end OmplModel.Driver.RRTstarDrv
